@@ -16,6 +16,16 @@ def load_table():
             src = open(os.path.join(HERE, "props", fn)).read()
             out[pid] = src
     return out
+def module_info(pid):
+    import importlib, sys
+    sys.path.insert(0, HERE)
+    try:
+        m = importlib.import_module("props.%s" % pid.lower())
+    except Exception:
+        return None
+    return m
+
+
 def main():
     table = load_table()
     props = [json.loads(l) for l in open(os.path.join(HERE, "properties.jsonl"))]
@@ -23,7 +33,12 @@ def main():
     checks, na = [], []
     for p in props:
         pid = p["id"]
-        mm = meta.get(pid, {})
+        mm = dict(meta.get(pid, {}))
+        mod = module_info(pid) if pid in table else None
+        if mod is not None:
+            doc = (mod.__doc__ or "").strip()
+            mm.setdefault("level_text", "Bounded symbolic model checking of the real source: %s  Every obligation (path & axiom instances & not claim) over the terms the real functions compute is decided unsat by z3 for all real-valued inputs of the listed sizes, all enumerated configurations and all explored paths; sat models are replayed on the real package before a VIOLATION is printed. Quick bounds: %s. Nothing is claimed outside the bounds." % (doc, json.dumps(mod.bounds("quick")) if hasattr(mod, "bounds") else "see evidence"))
+            mm.setdefault("level_note", "ASSUMED: " + "; ".join(getattr(mod, "ASSUMPTIONS", [])) + " | STUBS (contracts): " + "; ".join(getattr(mod, "STUBS", [])) + " | OUTSIDE THE CLAIM: " + "; ".join(getattr(mod, "OUTSIDE", [])))
         if pid in table and not mm.get("not_applicable"):
             checks.append(dict(
                 property_id=pid,
